@@ -117,6 +117,17 @@ class SymGraphBase:
             if v in k:
                 self.edge[k] = band(self.edge[k], bnot(g))
 
+    def remove_edge(self, u, v):
+        k = self._key(u, v)
+        record_raise(bnot(self.edge.get(k, False)), "NetworkXError", f"The edge {u}-{v} is not in the graph")
+        self.edge[k] = band(self.edge.get(k, False), bnot(Ctx.pc))
+
+    def remove_edges_from(self, it):
+        for g, e in SList.of(it).items:
+            k = self._key(e[0], e[1])
+            if k in self.edge:
+                self.edge[k] = band(self.edge[k], bnot(band(Ctx.pc, g)))
+
     def remove_nodes_from(self, it):
         for g, v in SList.of(it).items:
             gg = band(Ctx.pc, g)
@@ -151,7 +162,16 @@ class SymGraphBase:
 
     def edges(self, nbunch=None):
         if nbunch is not None:
-            raise Unsupported("edges(nbunch)")
+            nb = SSet.of([nbunch]) if not isinstance(nbunch, (SSet, SList, set, frozenset, list, tuple)) else SSet.of(nbunch)
+            if self.directed:
+                return SSet({k: band(g, nb.mem(k[0])) for k, g in self.edge.items()})
+            out = {}
+            for k, g in self.edge.items():
+                u, v = tuple(k)
+                # reported from the endpoint that is in nbunch (both orientations when both are)
+                out[(u, v)] = band(g, nb.mem(u))
+                out[(v, u)] = band(g, nb.mem(v), bnot(nb.mem(u)))
+            return SSet(out)
         if self.directed:
             return SSet({k: g for k, g in self.edge.items()})
         # undirected: networkx reports each edge once, from its earlier-inserted endpoint; the insertion order is
